@@ -45,7 +45,9 @@ Segs == <<
   Seg("text", "", "x > y", <<>>),
   Seg("open", "a", "<a class=\"x  y\">", <<A("class", 3, "\"x  y\"", 9)>>),
   Seg("open", "p", "<p class=z id='i'>", <<A("class", 3, "z", 9), A("id", 11, "'i'", 14)>>),
-  Seg("self", "b", "<b class=\"\" d={e}/>", <<A("class", 3, "\"\"", 9), A("d", 12, "{e}", 14)>>) >>
+  Seg("self", "b", "<b class=\"\" d={e}/>", <<A("class", 3, "\"\"", 9), A("d", 12, "{e}", 14)>>),
+  [Seg("special", "style", "<style></style>", <<>>) EXCEPT !.body = 7],
+  [Seg("special", "script", "<script src=\"a\"></script>", <<A("src", 8, "\"a\"", 12)>>) EXCEPT !.body = 16] >>
 
 VARIABLES doc, xml, elems, evs, open, nseg
 vars == <<doc, xml, elems, evs, open, nseg>>
